@@ -102,7 +102,7 @@ Proof. exact static_pccheck_needed. Qed.
 
 (* with the optimisation off the model with flags IS the resolver model of C02 / C09 (assemble), including the pass count *)
 Theorem C08_static_off_is_resolver : forall ac pc indexed defs names ns b,
-  reserved_free names -> canonical (length names) ns -> data_static_ok ns ->
+  reserved_free names -> canonical (length names) ns ->
   assembleS ac pc false indexed defs names ns b = assemble indexed defs names ns b.
 Proof. exact assembleS_off. Qed.
 
@@ -113,7 +113,7 @@ Proof. exact assembleS_off. Qed.
    situation of finding F70);
    or b >= 2 and both fail. *)
 Theorem C08_static_switch : forall indexed defs names ns,
-  reserved_free names -> canonical (length names) ns -> data_static_ok ns -> consts_asm_free ns -> matches_kinded indexed defs ns ->
+  reserved_free names -> canonical (length names) ns -> consts_asm_free ns -> matches_kinded indexed defs ns ->
   forall b,
   assembleS true true true indexed defs names ns b = assembleS true true false indexed defs names ns b \/
   (exists o s, (1 <= b)%nat /\ assembleS true true true indexed defs names ns b = Some (o, s, 1%nat) /\
@@ -126,7 +126,7 @@ Proof. exact static_switch_cases. Qed.
 
 (* hence: whenever both settings succeed they give identical bits and symbol values; the pass counts are equal or 1 and 2 *)
 Theorem C08_static_switch_same_result : forall indexed defs names ns,
-  reserved_free names -> canonical (length names) ns -> data_static_ok ns -> consts_asm_free ns -> matches_kinded indexed defs ns ->
+  reserved_free names -> canonical (length names) ns -> consts_asm_free ns -> matches_kinded indexed defs ns ->
   forall b o s n o' s' n',
   assembleS true true true indexed defs names ns b = Some (o, s, n) ->
   assembleS true true false indexed defs names ns b = Some (o', s', n') ->
@@ -135,7 +135,7 @@ Proof. exact static_switch_same_result. Qed.
 
 (* every success with the optimisation at a budget >= 2 is a success without it, same bits and symbols *)
 Theorem C08_static_switch_fwd : forall indexed defs names ns,
-  reserved_free names -> canonical (length names) ns -> data_static_ok ns -> consts_asm_free ns -> matches_kinded indexed defs ns ->
+  reserved_free names -> canonical (length names) ns -> consts_asm_free ns -> matches_kinded indexed defs ns ->
   forall b o s n, (2 <= b)%nat ->
   assembleS true true true indexed defs names ns b = Some (o, s, n) ->
   exists n', assembleS true true false indexed defs names ns b = Some (o, s, n') /\ counts_ok n n'.
@@ -143,7 +143,7 @@ Proof. exact static_switch_fwd. Qed.
 
 (* every success without the optimisation is a success with it, at every budget, same bits and symbols *)
 Theorem C08_static_switch_bwd : forall indexed defs names ns,
-  reserved_free names -> canonical (length names) ns -> data_static_ok ns -> consts_asm_free ns -> matches_kinded indexed defs ns ->
+  reserved_free names -> canonical (length names) ns -> consts_asm_free ns -> matches_kinded indexed defs ns ->
   forall b o s n',
   assembleS true true false indexed defs names ns b = Some (o, s, n') ->
   exists n, assembleS true true true indexed defs names ns b = Some (o, s, n) /\ counts_ok n n'.
@@ -151,14 +151,14 @@ Proof. exact static_switch_bwd. Qed.
 
 (* so for every budget >= 2 the same programs succeed and the same programs fail *)
 Theorem C08_static_switch_success : forall indexed defs names ns,
-  reserved_free names -> canonical (length names) ns -> data_static_ok ns -> consts_asm_free ns -> matches_kinded indexed defs ns ->
+  reserved_free names -> canonical (length names) ns -> consts_asm_free ns -> matches_kinded indexed defs ns ->
   forall b, (2 <= b)%nat ->
   (assembleS true true true indexed defs names ns b = None <-> assembleS true true false indexed defs names ns b = None).
 Proof. exact static_switch_success. Qed.
 
 (* at budget 1 the optimised run may succeed alone, and then in one pass *)
 Theorem C08_static_switch_budget1 : forall indexed defs names ns,
-  reserved_free names -> canonical (length names) ns -> data_static_ok ns -> consts_asm_free ns -> matches_kinded indexed defs ns ->
+  reserved_free names -> canonical (length names) ns -> consts_asm_free ns -> matches_kinded indexed defs ns ->
   forall o s n,
   assembleS true true true indexed defs names ns 1 = Some (o, s, n) ->
   assembleS true true false indexed defs names ns 1 = Some (o, s, n) \/
@@ -168,7 +168,7 @@ Proof. exact static_switch_budget1. Qed.
 (* every success of the optimised run (any budget, including the lone success at budget 1) carries the certificate of
    C02: its final state is a fixed point of the strict pass of the UNoptimised resolver, from which the output is built *)
 Theorem C08_static_on_certified : forall indexed defs names ns,
-  reserved_free names -> canonical (length names) ns -> data_static_ok ns -> consts_asm_free ns -> matches_kinded indexed defs ns ->
+  reserved_free names -> canonical (length names) ns -> consts_asm_free ns -> matches_kinded indexed defs ns ->
   forall b o s n,
   assembleS true true true indexed defs names ns b = Some (o, s, n) ->
   exists st, Certified names defs ns st /\ s = s_sym st /\ o = build_output ns st.
